@@ -163,7 +163,9 @@ func rowsSQL(rows []Row) string {
 	return strings.Join(rs, ", ")
 }
 
-func asgSQL(as []Asg) string {
+func asgSQL(as []Asg) string { return asgSQLn(as, colName) }
+
+func asgSQLn(as []Asg, colName func(int) string) string {
 	var ps []string
 	for _, a := range as {
 		n := colName(a.C)
@@ -181,7 +183,9 @@ func asgSQL(as []Asg) string {
 
 var opSQL = map[string]string{"eq": "=", "ne": "<>", "lt": "<", "le": "<=", "gt": ">", "ge": ">="}
 
-func tailSQL(st Stmt) string {
+func tailSQL(st Stmt) string { return tailSQLn(st, colName) }
+
+func tailSQLn(st Stmt, colName func(int) string) string {
 	var b strings.Builder
 	if len(st.Where) > 0 {
 		var ps []string
